@@ -181,10 +181,91 @@ def host_block(prop="C07"):
 
 
 # ------------------------------------------------------------------ submodules: which scope a submodule inherits its tables from
+OPH_H = z3.Function("OWN_PROCS_HIDE_H", I, I, AH)        # result of the helper own_procs_hide(host table) for a given (unit, host table): has / value maps
+OPH_V = z3.Function("OWN_PROCS_HIDE_V", I, I, AV)
+MPH = z3.Function("OPH_FOLD_H", z3.SeqSort(S), I, AH, AV, AH, AV, z3.ArraySort(I, B), AH)
+MPV = z3.Function("OPH_FOLD_V", z3.SeqSort(S), I, AH, AV, AH, AV, z3.ArraySort(I, B), AV)
+
+
+def own_procs_hide(prop="C07"):
+    """the helper of the submodule block: host procedures overlaid by the submodule's own (own declarations hide the host's), except that the
+    implementation of a separate module procedure gives way to its interface in the host (they are one procedure)"""
+    from pyvc.engine import map_or, map_ite
+    c = base(Contract("ford.sourceform", "FortranCodeUnit.correlate.own_procs_hide", prop))
+    c.param("host_procs", TDict("str", "ref"))
+    c.param("self", TRef("FortranCodeUnit"))          # free variable of the closure
+    c.fields.update({"module": "bool"})
+    c.hints["dict"] = "ref"
+    E = lambda v: V(v._e, v._e.entry)
+
+    def setup(eng, path):
+        eng.field_array(path, "all_procs")
+        eng.field_array(path, "module")
+        path.heap._dmap(SDict(0, "str", "ref"))
+    c.extra_setup.append(setup)
+    own = lambda e: SDict(sel(H(e, "all_procs"), e.self), "str", "ref")
+    c.requires("tables_are_distinct", lambda v: z3.And(sel(H(v, "all_procs"), v.self) != v.val("host_procs").id, sel(H(v, "all_procs"), v.self) > 0,
+                                                       sel(H(v, "all_procs"), v.self) < v.heap.alloc0))
+
+    def ctx(e):
+        hp = e.val("host_procs")
+        return (e.heap.dict_has(hp), e.heap.dict_val(hp), e.heap.dict_has(own(e)), e.heap.dict_val(own(e)))
+
+    def is_impl(e, x):
+        return z3.And(x != 0, z3.Select(e._e.has_array(e._p, "module"), x), sel(H(e, "module"), x))
+
+    def unfold(v):
+        e = E(v)
+        hh, hv, oh, ov = ctx(e)
+        seq, k = v.it.seq, v.k
+        key = seq[k]
+        base_h, base_v = map_or(hh, oh), map_ite(oh, ov, hv)
+        FH_, FV_ = c._fold
+        give_way = z3.And(z3.Select(hh, key), is_impl(e, z3.Select(ov, key)))
+        return [FH_(0) == base_h, FV_(0) == base_v,
+                FH_(k + 1) == z3.If(give_way, z3.Store(FH_(k), key, True), FH_(k)),
+                FV_(k + 1) == z3.If(give_way, z3.Store(FV_(k), key, z3.Select(hv, key)), FV_(k))]
+    # the fold is over this call's iteration sequence: plain uninterpreted functions of the index
+    c._fold = (z3.Function("OPH_H_AFTER", I, AH), z3.Function("OPH_V_AFTER", I, AV))
+    c._ks = [None]
+
+    def inv(v):
+        c._ks[0] = v.it.seq
+        m = v.val("merged")
+        return z3.And(v.heap.dict_has(m) == c._fold[0](v.k), v.heap.dict_val(m) == c._fold[1](v.k))
+
+    def frame(v):
+        e = E(v)
+        hp = e.val("host_procs")
+        return z3.And(v.heap.dict_has(hp) == e.heap.dict_has(hp), v.heap.dict_val(hp) == e.heap.dict_val(hp), v.heap.dict_has(own(e)) == e.heap.dict_has(own(e)),
+                      v.heap.dict_val(own(e)) == e.heap.dict_val(own(e)), H(v, "all_procs") == H(e, "all_procs"), H(v, "module") == H(e, "module"), v.self == e.self,
+                      v.val("merged").id != hp.id, v.val("merged").id != own(e).id)
+    c.loop(0, invariants=[("merged_is_the_fold", inv), ("frame", frame)], unfold=unfold, variant=lambda v: z3.Length(v.it.seq) - v.k)
+
+    def post(v0, res, v1):
+        ks = c._ks[0]
+        hh, hv, oh, ov = ctx(v0)
+        fh, fv = c._fold[0](z3.Length(ks)), c._fold[1](z3.Length(ks))
+        return z3.And(v1.heap.dict_has(res) == fh, v1.heap.dict_val(res) == fv)
+    c.ensures("host_procedures_overlaid_by_own_except_module_procedure_implementations", post)
+
+    def pointwise(v0, res, v1):
+        # consequences that need no induction: every visible key comes from one of the two tables, and an own entry that is not a module-procedure
+        # implementation is never replaced (stated on the entry overlay, before the exceptions are applied)
+        hh, hv, oh, ov = ctx(v0)
+        return z3.And(c._fold[0](0) == map_or(hh, oh), c._fold[1](0) == map_ite(oh, ov, hv))
+    c.ensures("starts_from_own_over_host", pointwise)
+    c.ensures("inputs_untouched_and_result_is_new", lambda v0, res, v1: z3.And(v1.heap.dict_has(v0.val("host_procs")) == v0.heap.dict_has(v0.val("host_procs")),
+                                                                              v1.heap.dict_has(own(v0)) == v0.heap.dict_has(own(v0)), v1.heap.dict_val(own(v0)) == v0.heap.dict_val(own(v0)),
+                                                                              res.id > v0.heap.alloc0), role="frame")
+    c.no_raise = True
+    return c
+
+
 def submodule_block(prop="C07"):
-    """FortranCodeUnit.correlate, the first `if isinstance(self, FortranSubmodule)` statement: a submodule whose parent is a submodule inherits that parent's
-    procedure / abstract-interface / type tables (the parent's entries win over what the host block put there); only a direct child of a module inherits the
-    ancestor module's tables (and its variables); in both cases it is registered in the `descendants` of exactly that parent."""
+    """FortranCodeUnit.correlate, the first `if isinstance(self, FortranSubmodule)` statement: a submodule whose parent is a submodule sees that parent's
+    procedure / abstract-interface / type tables, a direct child of a module the ancestor module's tables (and its variables) - by host association, so the
+    submodule's OWN declarations hide the inherited ones; it is registered in the `descendants` of exactly that parent."""
     from pyvc.engine import map_or, map_ite
     from pyvc.blocks import TargetMissing
     import ast
@@ -197,11 +278,13 @@ def submodule_block(prop="C07"):
             raise TargetMissing("no `if isinstance(self, FortranSubmodule):` statement in correlate")
         return [hits[0]]
     c.block_select = select
-    c.dropped.append("block contract: the first top-level statement `if isinstance(self, FortranSubmodule): ...` of FortranCodeUnit.correlate")
+    c.dropped.append("block contract: the first top-level statement `if isinstance(self, FortranSubmodule): ...` of FortranCodeUnit.correlate; its helper own_procs_hide "
+                     "is a callee with its own contract")
     c.param("self", TRef("FortranCodeUnit"))
     c.param("project", TOpaque("project"))
     cm = class_model()
     TABS = ["all_procs", "all_absinterfaces", "all_types", "all_vars"]
+    c.closure_contracts = {"own_procs_hide"}
 
     def setup(eng, path):
         for f in TABS + ["parent_submodule", "ancestor_module", "descendants"]:
@@ -210,11 +293,26 @@ def submodule_block(prop="C07"):
         path.heap._lmap("ref")
     c.extra_setup.append(setup)
     c.fields.update({"parent_submodule": "ref", "ancestor_module": "ref", "descendants": "list:ref"})
+    c.hints["dict"] = "ref"
     ps = lambda v: sel(H(v, "parent_submodule"), v.self)
     am = lambda v: sel(H(v, "ancestor_module"), v.self)
     is_sub = lambda v: cm.is_a(v.self, "FortranSubmodule")
     from_sub = lambda v: z3.And(ps(v) != 0, cm.is_a(ps(v), "FortranSubmodule"))
     from_mod = lambda v: z3.And(z3.Not(from_sub(v)), am(v) != 0, cm.is_a(am(v), "FortranModule"))
+
+    def call_oph(eng, path, e, args, recv):
+        host = args[0]
+        if not isinstance(host, SDict):
+            raise EngineError("own_procs_hide called with a non-dict")
+        new = eng.new_dict(path, e, key="str", val="ref") if hasattr(eng, "new_dict") else None
+        if new is None:
+            raise EngineError("engine cannot allocate a dict for a callee result")
+        me = path.env["self"].t
+        path.heap.dict_set(new, OPH_H(me, host.id), OPH_V(me, host.id))
+        return new
+    c.calls["own_procs_hide"] = call_oph
+    c.assumed.append("callee contract: own_procs_hide(host table) returns a new dict whose contents are a function of (the unit, the host table) - what that function is, is the "
+                     "subject of the helper's own contract (C07.A.FortranCodeUnit.correlate.own_procs_hide)")
 
     def req(v):
         a0 = v.heap.alloc0
@@ -229,27 +327,40 @@ def submodule_block(prop="C07"):
         return z3.And(*conj)
     c.requires("shape", req)
 
-    def merged(v0, v1, tab, src):
+    def own_over(v0, v1, tab, src):
         h0, x0 = dct(v0, tab, v0.self)
         hs, xs = dct(v0, tab, src)
         h1, x1 = dct(v1, tab, v0.self)
-        return z3.And(h1 == map_or(h0, hs), x1 == map_ite(hs, xs, x0))
+        return z3.And(h1 == map_or(hs, h0), x1 == map_ite(h0, x0, xs))
+
+    def procs_from(v0, v1, src):
+        h1, x1 = dct(v1, "all_procs", v0.self)
+        hid = sel(H(v0, "all_procs"), src)
+        return z3.And(h1 == OPH_H(v0.self, hid), x1 == OPH_V(v0.self, hid))
 
     def same(v0, v1, tab):
         h0, x0 = dct(v0, tab, v0.self)
         h1, x1 = dct(v1, tab, v0.self)
         return z3.And(h1 == h0, x1 == x0)
+
+    def host_untouched(v0, v1, src):
+        out = []
+        for t in TABS:
+            h0, x0 = dct(v0, t, src)
+            d = SDict(sel(H(v0, t), src), "str", "ref")
+            out.append(z3.And(v1.heap.dict_has(d) == h0, v1.heap.dict_val(d) == x0))
+        return z3.And(*out)
     desc = lambda v, o: v.heap.list_get(SList(sel(H(v, "descendants"), o), "ref"))
 
     def post(v0, res, v1):
         s = v0.self
-        sub_case = z3.And(*[merged(v0, v1, t, ps(v0)) for t in TABS[:3]], same(v0, v1, "all_vars"),
-                          desc(v1, ps(v0)) == z3.Concat(desc(v0, ps(v0)), z3.Unit(s)), desc(v1, am(v0)) == desc(v0, am(v0)))
-        mod_case = z3.And(*[merged(v0, v1, t, am(v0)) for t in TABS],
-                          desc(v1, am(v0)) == z3.Concat(desc(v0, am(v0)), z3.Unit(s)))
+        sub_case = z3.And(procs_from(v0, v1, ps(v0)), own_over(v0, v1, "all_absinterfaces", ps(v0)), own_over(v0, v1, "all_types", ps(v0)), same(v0, v1, "all_vars"),
+                          desc(v1, ps(v0)) == z3.Concat(desc(v0, ps(v0)), z3.Unit(s)), desc(v1, am(v0)) == desc(v0, am(v0)), host_untouched(v0, v1, ps(v0)))
+        mod_case = z3.And(procs_from(v0, v1, am(v0)), *[own_over(v0, v1, t, am(v0)) for t in TABS[1:]],
+                          desc(v1, am(v0)) == z3.Concat(desc(v0, am(v0)), z3.Unit(s)), host_untouched(v0, v1, am(v0)))
         none = z3.And(*[same(v0, v1, t) for t in TABS])
         return z3.If(z3.Not(is_sub(v0)), none, z3.If(from_sub(v0), sub_case, z3.If(from_mod(v0), mod_case, none)))
-    c.ensures("a_submodule_inherits_the_tables_of_its_parent_submodule_else_of_its_ancestor_module", post)
+    c.ensures("own_declarations_over_the_tables_of_the_parent_submodule_else_of_the_ancestor_module_which_stay_untouched", post)
     c.no_raise = True
     return c
 
